@@ -448,13 +448,45 @@ class Uncopyable:
         return "<uncopyable>"
 
 
+_FROZEN = [None]      # the root of the tree that is being read right now
+_FROZEN_CLS = []
+
+
+def frozen_class():
+    """Node subclass after docs/others/nodes.md (ReadOnlyNode): while a monitored function runs, every pre-assign hook of
+    a node of the INPUT tree raises - a reader that takes the input apart for a moment and puts it together again through
+    the public setters is refused half-way and leaves the input altered.  Copies are not frozen (their root differs)."""
+    if not _FROZEN_CLS:
+        from bigtree import Node
+
+        def _refuse(self, other):
+            fr = _FROZEN[0]
+            if fr is None:
+                return
+            for x in [self] + (list(other) if isinstance(other, (list, tuple)) else [other]):
+                if x is not None and hasattr(x, "root") and x.root is fr:
+                    raise RuntimeError("the tree is frozen while it is being read")
+
+        class FrozenNode(Node):
+            def _Node__pre_assign_parent(self, new_parent):
+                _refuse(self, new_parent)
+
+            def _Node__pre_assign_children(self, new_children):
+                _refuse(self, new_children)
+
+        _FROZEN_CLS.append(FrozenNode)
+    return _FROZEN_CLS[0]
+
+
 def build(spec, tsep="/", uid=True, fault=None):
-    from bigtree import Node
+    Node = frozen_class()
     nodes = []
     def go(s, parent):
         kw = dict(s[1])
         if uid:
             kw["uid"] = len(nodes)
+            if len(nodes) % 3 == 2:
+                kw["box"] = ("v1", ["created"])      # an immutable value that HOLDS a mutable one (see `sig`)
         if fault is not None and len(nodes) == fault:
             kw["resource"] = Uncopyable()
         n = Node(s[0], sep=tsep, **kw) if parent is None else Node(s[0], **kw)
@@ -493,6 +525,14 @@ def edited(spec, seed):
 
 def call(d, root, nodes):
     """run the monitored function; returns (returned node or None, list of 'result side' nodes that are not ours)"""
+    _FROZEN[0] = root if isinstance(root, frozen_class()) else None
+    try:
+        return _call(d, root, nodes)
+    finally:
+        _FROZEN[0] = None
+
+
+def _call(d, root, nodes):
     import bigtree
     from bigtree import Node
     fn, o = d["fn"], d["opts"]
@@ -534,7 +574,9 @@ def call(d, root, nodes):
                         if i % 3 != 1:
                             n.set_attrs({"dstyle": {"shape": "box"}, "estyle": {"label": "e%d" % i}})
                     try:
-                        bigtree.tree_to_dot(start, node_attr="dstyle", edge_attr="estyle", node_colour="gold", node_shape="circle",
+                        # ... given as one tree or as a LIST of trees (the list form is not copied as a whole)
+                        arg = [start] if (zlib.crc32(repr((d["spec"], d["start"])).encode()) // 2) % 2 else start
+                        bigtree.tree_to_dot(arg, node_attr="dstyle", edge_attr="estyle", node_colour="gold", node_shape="circle",
                                             edge_colour="blue").to_string()
                     finally:
                         for i, n in enumerate(nodes):
@@ -554,6 +596,16 @@ def call(d, root, nodes):
                 bigtree.hprint_tree(start, max_depth=md)
             elif fn == "yield_tree":
                 # the nodes yield_tree hands out belong to the copy it renders, never to the input
+                # ... and an earlier rendering of the same tree object, made while its attributes had other values, must
+                # not come back (a copy remembered per tree object and refreshed only when names or shape change)
+                saved = [(n, n.__dict__["age"]) for n in nodes if "age" in n.__dict__]
+                for n, a in saved:
+                    n.age = ("earlier", a)
+                try:
+                    list(bigtree.yield_tree(start, max_depth=md, style=o["style"]))
+                finally:
+                    for n, a in saved:
+                        n.age = a
                 other = [t[2] for t in list(bigtree.yield_tree(start, max_depth=md, style=o["style"]))]
             elif fn == "hyield_tree":
                 list(bigtree.hyield_tree(start, max_depth=md))
@@ -668,7 +720,7 @@ def apply_op(op, onodes, rnodes, wrap):
 
 def pub_attrs(n):
     from bigtree import BinaryNode
-    skip = ["name", "uid"] + (["val"] if isinstance(n, BinaryNode) else [])   # BinaryNode.val mirrors the name
+    skip = ["name", "uid", "box"] + (["val"] if isinstance(n, BinaryNode) else [])   # BinaryNode.val mirrors the name
     return dict(n.describe(exclude_attributes=skip, exclude_prefix="_"))
 
 
@@ -724,7 +776,7 @@ def impl(case):
 # ---------------------------------------------------------------- oracle (model-free)
 def sig(pool):
     return [(id(n), id(n.parent) if n.parent is not None else None, [id(c) if c is not None else None for c in n.children],
-             n.name, pub_attrs(n)) for n in pool]
+             n.name, pub_attrs(n), repr(n.__dict__.get("box"))) for n in pool]
 
 
 def dag_sig(pool):
@@ -913,6 +965,13 @@ def oracle(case):
             ku = [c.get_attr("uid") for c in r.children if c is not None]
             if ku != [c for c in child_uids[u] if c in ku]:
                 msgs.append(f"{d['fn']}: children of result node {u} are out of order")
+    if d["fn"] == "yield_tree":
+        for r in rnodes:
+            u = r.get_attr("uid")
+            if not isinstance(u, int) or (r.name, pub_attrs(r)) != labels.get(u):
+                msgs.append(f"yield_tree: the node handed out for input node {u} does not carry its name and attributes: "
+                            f"{(r.name, pub_attrs(r))!r} != {labels.get(u)!r}")
+                break
     # later changes on one side are not visible on the other
     unmodelled = other is not None
     pool_r = other if unmodelled else rnodes
@@ -925,6 +984,18 @@ def oracle(case):
         if op[0] == "o" and sig(pool_r) != sr:
             msgs.append(f"{d['fn']}: mutation {op} of the input changed the returned tree")
             break
+    if kind != "clone" and not msgs:
+        # the functions that COPY (deepcopy) also copy what an attribute value holds: a list inside a tuple is changed in
+        # place on one side (clone_tree passes attribute values on by reference, as documented: not asked of it)
+        for mine, theirs, what in ((pool_r, nodes, "result"), (nodes, pool_r, "input")):
+            st = sig(theirs)
+            for n in mine:
+                b = n.__dict__.get("box")
+                if isinstance(b, tuple):
+                    b[1].append(what)
+            if sig(theirs) != st:
+                msgs.append(f"{d['fn']}: an in-place change of a list held by an attribute of the {what} shows on the other side")
+                break
     return msgs
 
 
